@@ -9,7 +9,8 @@
  * MODE 1  grayscale input produced HERE: "P5 W H MAXVAL\n" (ALPHA=0) or P7 TUPLTYPE GRAYSCALE_ALPHA (ALPHA=1) with symbolic
  *         samples: the complete file decodes to (g,g,g[,a]) per pixel, W x H, CW-bit channels; prefixes: exception or
  *         identical; the decoder stays inside its buffers (CBMC pointer checks on the exact-size malloc).
- * Samples wider than 8 bits are compared in the byte order phosg itself writes (host order), see NOTES.md. */
+ * Samples wider than 8 bits are compared in the byte order phosg itself writes (host order), see NOTES.md.
+ * The ALPHA=1 (P7) variants of MODE 1/2 are not queried from this file: P7 input has its own harness and unit (h_p7.c). */
 #ifndef FCAP
 #define FCAP 224
 #endif
